@@ -134,7 +134,7 @@ package node
 //@ pred emitInv(cr compResult) bool := crOK(cr) && csKept(cr) && csNewWF(cr) && dsKept(cr)
 //@ func (List).byteCode [C05,C12] implements ByteCoder.byteCode
 //@   assumes[unfold] forall k :: 0 <= k && k < len(l.Elems) ==> exprOK(l.Elems[k])
-//@   loop 0 invariant[prefix] 0 <= i && i <= len(l.Elems) && (len(ary) == 0 || fresh(ary)) && crOK(cr)
+//@   loop 0 invariant[prefix] 0 <= i && i <= len(l.Elems) && fresh(ary) && crOK(cr)
 //@       && same(*cr.CS, old(*cr.CS)) && same(*cr.DS, old(*cr.DS)) && csKept(cr) && dsKept(cr)
 //@   loop 1 invariant[rest] -1 <= rangeindex && 0 <= i && i < len(l.Elems) && emitInv(cr)
 //
